@@ -5,7 +5,8 @@
    `bin/mkprops.py`, then kept as source).  What is proved and what is partial: DESIGN.md §4. -/
 import Peppi.C03
 import Peppi.Premises
-import Peppi.PremisesViews
+import Peppi.PremisesCore
+import Peppi.PremisesSchema
 set_option linter.unusedVariables false
 namespace Peppi.Props.C03
 
@@ -71,112 +72,112 @@ open Extracted in
 theorem end_ok : tableOK End.readPush = true :=
   _root_.Peppi.end_ok 
 
-/- from `Peppi.PremisesViews` -/
+/- from `Peppi.PremisesCore` -/
 open Extracted in
-theorem views_End : structOK true true End.views = true :=
-  _root_.Peppi.views_End 
+theorem core_End : structCoreOK true true End.views = true :=
+  _root_.Peppi.core_End 
 
-/- from `Peppi.PremisesViews` -/
+/- from `Peppi.PremisesCore` -/
 open Extracted in
-theorem views_Item : structOK false true Item.views = true :=
-  _root_.Peppi.views_Item 
+theorem core_Item : structCoreOK false true Item.views = true :=
+  _root_.Peppi.core_Item 
 
-/- from `Peppi.PremisesViews` -/
+/- from `Peppi.PremisesCore` -/
 open Extracted in
-theorem views_ItemMisc : structOK false false ItemMisc.views = true :=
-  _root_.Peppi.views_ItemMisc 
+theorem core_ItemMisc : structCoreOK false false ItemMisc.views = true :=
+  _root_.Peppi.core_ItemMisc 
 
-/- from `Peppi.PremisesViews` -/
+/- from `Peppi.PremisesCore` -/
 open Extracted in
-theorem views_Position : structOK false true Position.views = true :=
-  _root_.Peppi.views_Position 
+theorem core_Position : structCoreOK false true Position.views = true :=
+  _root_.Peppi.core_Position 
 
-/- from `Peppi.PremisesViews` -/
+/- from `Peppi.PremisesCore` -/
 open Extracted in
-theorem views_Post : structOK false true Post.views = true :=
-  _root_.Peppi.views_Post 
+theorem core_Post : structCoreOK false true Post.views = true :=
+  _root_.Peppi.core_Post 
 
-/- from `Peppi.PremisesViews` -/
+/- from `Peppi.PremisesCore` -/
 open Extracted in
-theorem views_Pre : structOK false true Pre.views = true :=
-  _root_.Peppi.views_Pre 
+theorem core_Pre : structCoreOK false true Pre.views = true :=
+  _root_.Peppi.core_Pre 
 
-/- from `Peppi.PremisesViews` -/
+/- from `Peppi.PremisesCore` -/
 open Extracted in
-theorem views_Start : structOK false true Start.views = true :=
-  _root_.Peppi.views_Start 
+theorem core_Start : structCoreOK false true Start.views = true :=
+  _root_.Peppi.core_Start 
 
-/- from `Peppi.PremisesViews` -/
+/- from `Peppi.PremisesCore` -/
 open Extracted in
-theorem views_StateFlags : structOK false false StateFlags.views = true :=
-  _root_.Peppi.views_StateFlags 
+theorem core_StateFlags : structCoreOK false false StateFlags.views = true :=
+  _root_.Peppi.core_StateFlags 
 
-/- from `Peppi.PremisesViews` -/
+/- from `Peppi.PremisesCore` -/
 open Extracted in
-theorem views_TriggersPhysical : structOK false true TriggersPhysical.views = true :=
-  _root_.Peppi.views_TriggersPhysical 
+theorem core_TriggersPhysical : structCoreOK false true TriggersPhysical.views = true :=
+  _root_.Peppi.core_TriggersPhysical 
 
-/- from `Peppi.PremisesViews` -/
+/- from `Peppi.PremisesCore` -/
 open Extracted in
-theorem views_Velocities : structOK false true Velocities.views = true :=
-  _root_.Peppi.views_Velocities 
+theorem core_Velocities : structCoreOK false true Velocities.views = true :=
+  _root_.Peppi.core_Velocities 
 
-/- from `Peppi.PremisesViews` -/
+/- from `Peppi.PremisesCore` -/
 open Extracted in
-theorem views_Velocity : structOK false true Velocity.views = true :=
-  _root_.Peppi.views_Velocity 
+theorem core_Velocity : structCoreOK false true Velocity.views = true :=
+  _root_.Peppi.core_Velocity 
 
-/- from `Peppi.PremisesViews` -/
+/- from `Peppi.PremisesSchema` -/
 open Extracted in
 theorem schema_End : schemaMatchesJson End.views End.framesJson = true :=
   _root_.Peppi.schema_End 
 
-/- from `Peppi.PremisesViews` -/
+/- from `Peppi.PremisesSchema` -/
 open Extracted in
 theorem schema_Item : schemaMatchesJson Item.views Item.framesJson = true :=
   _root_.Peppi.schema_Item 
 
-/- from `Peppi.PremisesViews` -/
+/- from `Peppi.PremisesSchema` -/
 open Extracted in
 theorem schema_ItemMisc : schemaMatchesJson ItemMisc.views ItemMisc.framesJson = true :=
   _root_.Peppi.schema_ItemMisc 
 
-/- from `Peppi.PremisesViews` -/
+/- from `Peppi.PremisesSchema` -/
 open Extracted in
 theorem schema_Position : schemaMatchesJson Position.views Position.framesJson = true :=
   _root_.Peppi.schema_Position 
 
-/- from `Peppi.PremisesViews` -/
+/- from `Peppi.PremisesSchema` -/
 open Extracted in
 theorem schema_Post : schemaMatchesJson Post.views Post.framesJson = true :=
   _root_.Peppi.schema_Post 
 
-/- from `Peppi.PremisesViews` -/
+/- from `Peppi.PremisesSchema` -/
 open Extracted in
 theorem schema_Pre : schemaMatchesJson Pre.views Pre.framesJson = true :=
   _root_.Peppi.schema_Pre 
 
-/- from `Peppi.PremisesViews` -/
+/- from `Peppi.PremisesSchema` -/
 open Extracted in
 theorem schema_Start : schemaMatchesJson Start.views Start.framesJson = true :=
   _root_.Peppi.schema_Start 
 
-/- from `Peppi.PremisesViews` -/
+/- from `Peppi.PremisesSchema` -/
 open Extracted in
 theorem schema_StateFlags : schemaMatchesJson StateFlags.views StateFlags.framesJson = true :=
   _root_.Peppi.schema_StateFlags 
 
-/- from `Peppi.PremisesViews` -/
+/- from `Peppi.PremisesSchema` -/
 open Extracted in
 theorem schema_TriggersPhysical : schemaMatchesJson TriggersPhysical.views TriggersPhysical.framesJson = true :=
   _root_.Peppi.schema_TriggersPhysical 
 
-/- from `Peppi.PremisesViews` -/
+/- from `Peppi.PremisesSchema` -/
 open Extracted in
 theorem schema_Velocities : schemaMatchesJson Velocities.views Velocities.framesJson = true :=
   _root_.Peppi.schema_Velocities 
 
-/- from `Peppi.PremisesViews` -/
+/- from `Peppi.PremisesSchema` -/
 open Extracted in
 theorem schema_Velocity : schemaMatchesJson Velocity.views Velocity.framesJson = true :=
   _root_.Peppi.schema_Velocity 
